@@ -273,7 +273,7 @@ func i5Independent(f *core.Func, rs *ast.RangeStmt) (bool, string) {
 				continue
 			}
 			lv, rv := core.VarOf(info, as.Lhs[0]), core.VarOf(info, as.Rhs[0])
-			if lv != nil && rv != nil && isErrorType(lv.Type()) && isErrorType(rv.Type()) && rs.Body.Pos() <= rv.Pos() && rv.Pos() < rs.Body.End() {
+			if lv != nil && rv != nil && isErrorType(lv.Type()) && isErrorType(rv.Type()) && core.DeclaredIn(info, rs.Body, rv) {
 				exitPair[as], exitPair[br] = true, true
 			}
 		}
@@ -295,7 +295,7 @@ func i5Independent(f *core.Func, rs *ast.RangeStmt) (bool, string) {
 				if id, isID := l.(*ast.Ident); isID && id.Name == "_" {
 					continue
 				}
-				if v := core.VarOf(info, l); v != nil && !(rs.Body.Pos() <= v.Pos() && v.Pos() < rs.Body.End()) {
+				if v := core.VarOf(info, l); v != nil && !core.DeclaredIn(info, rs.Body, v) {
 					ok, why = false, "`"+core.ExprStr(x)+"` writes a variable that lives across iterations (loop-carried dependence)"
 				}
 				if _, isIx := ast.Unparen(l).(*ast.IndexExpr); isIx {
@@ -312,7 +312,7 @@ func i5Independent(f *core.Func, rs *ast.RangeStmt) (bool, string) {
 			// only the propagation of an error produced by this element's own effect
 			propagates := false
 			for _, res := range x.Results {
-				if v := core.VarOf(info, res); v != nil && isErrorType(v.Type()) && rs.Body.Pos() <= v.Pos() && v.Pos() < rs.Body.End() {
+				if v := core.VarOf(info, res); v != nil && isErrorType(v.Type()) && core.DeclaredIn(info, rs.Body, v) {
 					propagates = true
 				}
 			}
